@@ -58,6 +58,12 @@ func ghostLayout(t types.Type) ([]string, bool) {
 	if isNamed(t, "math/big", "Int") {
 		return []string{"int"}, true // the mathematical value
 	}
+	if isNamed(t, "github.com/kkdai/bstream", "BStream") {
+		return []string{"int"}, true // number of bits written so far (writers); meaningless for readers
+	}
+	if isNamed(t, "bytes", "Buffer") {
+		return []string{"int"}, true // number of unread bytes held (append-only writer / consuming reader)
+	}
 	return nil, false
 }
 
@@ -164,6 +170,9 @@ var layoutCache = map[types.Type][]string{}
 
 func cellKinds(t types.Type) []string {
 	if r, ok := layoutCache[t]; ok {
+		for _, k := range r {
+			kindsSeen[k] = true
+		}
 		return r
 	}
 	var r []string
